@@ -547,7 +547,8 @@ func (p *c06) Run(raw json.RawMessage) eng.Result {
 		}
 		refDump := model.DumpModule(ref, model.FullDump()).String()
 		toks := yangTokens(base)
-		for _, filler := range []string{" /* c */ ", "\n// c\n", "\t\t", "\n\n", " /* { ; } \" */ ", "\n// \"unterminated { \n", "/**/", " /* // */ "} {
+		for _, filler := range []string{" /* c */ ", "\n// c\n", "\t\t", "\n\n", " /* { ; } \" */ ", "\n// \"unterminated { \n", "/**/", " /* // */ ",
+			"\n//\n", "//\n", "\n// \n", "\n///\n", "\n//\r\n", "\n//\n//\n", " /***/ ", " /* * */ ", " /*\n*/ ", " /*/ x */ ", " /* x /*/ "} {
 			for i := 1; i < len(toks); i++ {
 				// a comment directly between an opening quote... only between tokens
 				text := base[:toks[i].start] + filler + base[toks[i].start:]
@@ -559,6 +560,10 @@ func (p *c06) Run(raw json.RawMessage) eng.Result {
 					cls = "line-comment"
 				} else if !strings.Contains(filler, "/") {
 					cls = "white-space"
+				}
+				if strings.HasPrefix(filler, "/") {
+					// no white space between the previous token and the comment
+					cls += "/adjacent-to-previous-token"
 				}
 				cell := "C06/comments/" + cls
 				switch {
